@@ -66,6 +66,12 @@ def gen(rng, tier):
     spec["settle"] = round(total + 100.0, 3)
     spec["sim"] = runner.draw_sim_cfg(rng, est=500, stall_ok=True)
     spec["sim"]["horizon_s"] = 100000
+    # (drawn last) blocking mode with callables that outlast the 30 s fallback timer: a wake-up lost
+    # between blocked submitters is then not papered over by the next hand-over a moment later
+    if block and rng.random() < 0.4:
+        for k in sorted(subs):
+            subs[k]["dur"] = rng.choice([60.0, 100.0])
+        spec["settle"] = round(sum(x["dur"] for x in subs.values()) + 100.0, 3)
     return spec
 
 
@@ -207,12 +213,14 @@ def check(spec, env):
             woken = j[5]
             n_enq = sum(1 for (a, b) in sub_iv.values() if b < q)
             n_hand = sum(1 for h in handed if h[0] < q)
-            n_canc_queued = 0
+            canc_queued = set()
             for (opseq, c) in cr.items():
                 # a cancel() that returned True took its job out of the queue; its own done-callbacks
                 # (which may take time) run inside the call, so it counts from the call's beginning
+                # (a repeated cancel() of the same future answers True again and removes nothing more)
                 if opseq < q and c[6] is True and c[5] not in [h[5] for h in handed if h[0] < c[0]]:
-                    n_canc_queued += 1
+                    canc_queued.add(c[5])
+            n_canc_queued = len(canc_queued)
             queued = n_enq - n_hand - n_canc_queued
             inflight = sum(1 for h in handed if h[0] < q and fin.get(h[4], 1 << 60) > q)
             # at a clock jump nobody is runnable, so the state is exact: jobs queued while fewer than
